@@ -474,7 +474,7 @@ func expand(c cfg, n node, double bool) result {
 			}
 			ctl := vos.Register(dir, k)
 			ctl.RemoveDesc = c.desc
-			crashed := vos.RunToCrash(func() { apply(s, op) })
+			crashed := ctl.RunToCrash(func() { apply(s, op) })
 			ctl.Unregister()
 			if !crashed {
 				os.RemoveAll(dir)
@@ -499,10 +499,10 @@ func expand(c cfg, n node, double bool) result {
 						}
 						c1 := vos.Register(d2, k)
 						c1.RemoveDesc = c.desc
-						vos.RunToCrash(func() { apply(s2, op) })
+						c1.RunToCrash(func() { apply(s2, op) })
 						c1.Unregister()
 						c2 := vos.Register(d2, j)
-						vos.RunToCrash(func() { newStore(d2+"/store", c) })
+						c2.RunToCrash(func() { newStore(d2+"/store", c) })
 						c2.Unregister()
 						r.doubleCnt++
 						if fp, msg := checkRecovered(c, d2+"/store", n.m, nn.m, op, evictable); fp != "" {
